@@ -570,3 +570,23 @@ def clone(node):
         if hasattr(node, a):
             setattr(new, a, getattr(node, a))
     return new
+
+
+def inert(stmt):
+    """Statements that cannot matter for any property: logging calls, `pass`, bare string expressions (doc strings).
+    Shape rules compare statement lists through live() so that an added or removed log line is not a change."""
+    if isinstance(stmt, ast.Pass):
+        return True
+    if isinstance(stmt, ast.Expr):
+        v = stmt.value
+        if isinstance(v, ast.Constant) and isinstance(v.value, str):
+            return True
+        if isinstance(v, ast.Call) and isinstance(v.func, ast.Attribute):
+            recv = norm(v.func.value)
+            if recv in ('log', 'self.log', 'logging', 'logger', 'self.logger') and v.func.attr in ('debug', 'info', 'warning', 'warn', 'error', 'critical', 'exception', 'log'):
+                return True
+    return False
+
+
+def live(body):
+    return [s for s in body if not inert(s)]
